@@ -5,6 +5,7 @@ from .geomgen import IDENT
 
 ID = "C15"
 PROPS_FILES = ["Props/C15"]
+FRAGMENTS = ["gradient-stage"]
 TRUSTED = [
     "Coq 8.16.1 kernel; Flocq binary32",
     "Model/Gradient.v: bit-exact GradientStop::new / Gradient::new (tied through the Debug output of the shader), ideal factor/bias and tiling functions over Q",
